@@ -15,7 +15,7 @@ META = {
                   "unknown_alg": "any algorithm name of length <= 6",
                   "tree3": "entries a, d, d/x: each absent/file(3 contents)/symlink(5 targets incl. outside, dangling, via '..')/directory; outside target exists or not; every visiting order",
                   "pair2": "two directories over names a, b (kinds x contents x 3 link targets): hash trees equal <=> directories the same; outside link <=> ValueError"},
-        "thorough": {"chunk": "length <= 8, 4 read sizes", "tree4": "adds entry b"},
+        "thorough": {"chunk": "content length <= 8"},
     },
     "outside": ["SHA-256/SHA-512 themselves (replaced by an injective recording hash)", "real Path.rglob / resolve with link chains (link -> link) and links whose text runs through themselves",
                 "timestamps, permissions, special files", "file_hashsum on unreadable files"],
